@@ -42,6 +42,17 @@ pub fn drive(args: &[String]) -> i32 {
                     let t = first_true(0, ALL, |w| call(w1, w as u64).1 != 2);
                     evs.push(json!({"op": "h2pe1", "case": id, "k": k + 1, "N": c["N"], "K": c["K"], "n": c["n"], "out": o0.min(1 << 30), "accepted_at_zero": nw0 == 2, "T": l14(t), "show": [format!("{:.12}", t as f64 / 18446744073709551616.0)]}));
                 }
+                for (k, a) in c.get("rt").and_then(|x| x.as_array()).cloned().unwrap_or_default().iter().enumerate() {
+                    let w1: u64 = a["w1"].as_str().unwrap().parse().unwrap();
+                    let pw: u128 = a["probe"].as_str().unwrap().parse::<u64>().unwrap() as u128;
+                    let y = a["out"].as_u64().unwrap();
+                    let hit = |o: (u64, u64)| o.1 == 2 && o.0 == y;
+                    let probe_ok = hit(call(w1, pw as u64));
+                    let lo = if probe_ok { first_true(0, pw, |w| hit(call(w1, w as u64))) } else { 0 };
+                    let hi = if probe_ok { first_true(pw, ALL, |w| !hit(call(w1, w as u64))) } else { 0 };
+                    evs.push(json!({"op": "h2pet", "case": id, "k": k + 1, "N": c["N"], "K": c["K"], "n": c["n"], "probe_ok": probe_ok, "lo": l14(lo), "hi": l14(hi),
+                                    "show": [format!("{:.12}", lo as f64 / 18446744073709551616.0), format!("{:.12}", hi as f64 / 18446744073709551616.0)]}));
+                }
                 evs
             });
             match res {
